@@ -29,7 +29,7 @@ RULE = ("cases: (rows, V placement, family, scaling); executions: units x units 
 ASSUMPTIONS = ["tables are increasing in wavelength and cover 0.55 micron (the property's precondition)",
                "opacities from finite families (constant, power law, non-monotonic, seed-derived positive)"]
 OPS = ['scale-chi', 'chi-unit', 'wav-unit', 'new-chi', 'pickle', 'new-table']
-REQUIRED_CLASSES = ['history-depth-3', 'history-new-chi-after-query', 'V-between', 'V-on-node', 'V-first', 'V-last', 'outside-zero', 'exact-at-V', 'pickle', 'table', 'file',
+REQUIRED_CLASSES = ['table-native-in-other-unit', 'history-depth-3', 'history-new-chi-after-query', 'V-between', 'V-on-node', 'V-first', 'V-last', 'outside-zero', 'exact-at-V', 'pickle', 'table', 'file',
                     'unit-change', 'scaled', 'non-monotonic']
 
 
@@ -174,9 +174,16 @@ def run_case(ctx, case, rec, d):
         rec.cls('scaled')
     qunits = [u.micron, u.nm, u.m] + ([u.AA] if tier == 'thorough' else [])
     first = True
+    import decimal
+    FACT = {u.micron: '1', u.nm: '1e3', u.cm: '1e-4', u.AA: '1e4'}
     for wu, cu, qu in itertools.product([u.micron, u.nm, u.cm, u.AA], [u.cm ** 2 / u.g, u.m ** 2 / u.kg], qunits):
         e = Extinction()
         e.wav = (wt * u.micron).to(wu)
+        if case['vpos'] != 'between' and wu != u.micron and case['fam'] % 2 == 1:
+            # the table typed in directly in its own unit (5500 Angstrom, 550 nm ...): V sits exactly on the node there,
+            # whatever 0.55 micron converts to in floating point
+            e.wav = np.array([float(decimal.Decimal(repr(float(w))) * decimal.Decimal(FACT[wu])) for w in wt]) * wu
+            rec.cls('table-native-in-other-unit')
         e.chi = (ct * case['sc'] * u.cm ** 2 / u.g).to(cu)
         forms = [('fresh', lambda: e), ('pickle', lambda: pickle.loads(pickle.dumps(e, 2))),
                  ('table', lambda: Extinction.from_table(e.to_table()))]
